@@ -27,7 +27,10 @@ def new_entry(I, log, op, cid_term=None):
         n = g.get('entry_ids', 0) + 1
         g['entry_ids'] = n
         cid_term = T.lit_bytes(b'entry-cid-%d' % n)
-    e = Native('entry', t=cid_term, idx=k, op=op, as_iface=True)
+    g2 = I.path.ghost
+    sq = g2.get('entry_seq', 0) + 1
+    g2['entry_seq'] = sq
+    e = Native('entry', t=cid_term, idx=k, op=op, seq=sq, as_iface=True)
     try:
         op.entry = Iface(-10, e)
     except Exception:
@@ -57,7 +60,9 @@ def install(I):
         return SliceVal(AV(vs), 0, len(vs), len(vs))
 
     M[('oplog', 'GetEntries')] = lambda I, a, ins: omap(I, arrival_order(I, a[0]))
-    M[('oplog', 'Values')] = lambda I, a, ins: omap(I, a[0].entries)
+    # Values(): the deterministic log order -- a function of the entry set (here: global creation order, which extends
+    # causality), whatever the order in which the entries were inserted into this replica's log
+    M[('oplog', 'Values')] = lambda I, a, ins: omap(I, sorted(a[0].entries, key=lambda e: getattr(e, 'seq', 0)))
     M[('oplog', 'Len')] = lambda I, a, ins: len(a[0].entries)
     M[('orderedmap', 'Slice')] = lambda I, a, ins: entries_slice(I, a[0].ents)
     M[('orderedmap', 'Len')] = lambda I, a, ins: len(a[0].ents)
@@ -194,6 +199,15 @@ def install(I):
         I.path.events.append('partial view %s of %d entries' % (bin(i), n))
         return log_iface(I, l)
 
+    def v_log_share(I, args, ins):
+        """replication: the SAME entry (same CID, same bytes) becomes part of another replica's log"""
+        dst, e = args[0].v, args[1].v
+        if any(x is e for x in dst.entries):
+            return False
+        dst.entries.append(e)
+        return True
+
+    N['verif_logShare'] = v_log_share
     N['verif_logView'] = v_log_view
     N['verif_bindStore'] = v_bind_store
     N['verif_storeLog'] = v_store_log
